@@ -429,7 +429,7 @@ impl<'a> Run<'a> {
         };
         let input = format!("recipe {text:?} with the {} converter", c.name);
         // the whole analysis of the document, front matter interpreted (model of `process_frontmatter`); sampled
-        if !old_style && (c.name == "bundled" || c.name == "empty") && crate::util::hash64(&text) % 6 == 0 {
+        if (c.name == "bundled" || c.name == "empty") && crate::util::hash64(&text) % 6 == 0 {
             let (conv, mode) = (if c.name == "bundled" { 1 } else { 0 }, (crate::util::hash64(&text) / 6 % 4) as u8);
             crate::fm::fm_case(self.ctx, &text, Extensions::all().bits(), conv, mode);
         }
